@@ -175,6 +175,18 @@ impl Server {
         wrapper: Option<Vec<String>>,
         manual: bool,
     ) -> Result<Server, LspError> {
+        Self::start_full(sb, settings, wrapper, manual, None)
+    }
+
+    /// `fsize_limit`: RLIMIT_FSIZE for the server process (SIGXFSZ ignored), so that a write
+    /// beyond that size fails with EFBIG — a fault that hits a save part-way
+    pub fn start_full(
+        sb: &Sandbox,
+        settings: Value,
+        wrapper: Option<Vec<String>>,
+        manual: bool,
+        fsize_limit: Option<u64>,
+    ) -> Result<Server, LspError> {
         let bin = ls_binary();
         let mut cmd = match &wrapper {
             Some(w) => {
@@ -195,6 +207,17 @@ impl Server {
             .stdin(Stdio::piped())
             .stdout(Stdio::piped())
             .stderr(Stdio::null());
+        if let Some(limit) = fsize_limit {
+            use std::os::unix::process::CommandExt;
+            unsafe {
+                cmd.pre_exec(move || {
+                    libc::signal(libc::SIGXFSZ, libc::SIG_IGN);
+                    let lim = libc::rlimit { rlim_cur: limit, rlim_max: limit };
+                    libc::setrlimit(libc::RLIMIT_FSIZE, &lim);
+                    Ok(())
+                });
+            }
+        }
         let mut child = cmd
             .spawn()
             .map_err(|e| LspError::Died(format!("cannot start {}: {e}", bin.display())))?;
